@@ -69,5 +69,8 @@ pub use rewrite::*;
 mod group;
 use group::*;
 
+#[cfg(slotted_egraphs_verif)]
+pub mod verif_group;
+
 mod run;
 pub use run::*;
